@@ -483,6 +483,114 @@ theorem conc_quiescent_view {C : Conc} (hq : ¬ C.enabledInternal) {r : Nat} {v 
           exact hq ⟨r', e', hi', by simp [Conc.step, hv2, hal, hs3]⟩
       | _ => simp [Conc.allows] at ha
 
+/-! ### fairness split into its two sources: the Go scheduler and the pool -/
+
+/-- fairness demanded only from tick `N` on (all the liveness proof uses) -/
+def Exec.FairFrom (X : Exec) (N : Nat) : Prop :=
+  ∀ n, N ≤ n → (X.C n).enabledInternal → ∃ m, n ≤ m ∧ X.tookInternal m
+
+/-- a task of some cascade waits in the queue -/
+def Conc.taskQueued (C : Conc) : Prop :=
+  ∃ (r : Nat) (v : State) (i : Nat) (m : Mon), C.view r = some v ∧ v.mons[i]? = some m ∧ m.phase = .queued
+
+/-- a worker is inside a task of some cascade (running its rules, handling its error) -/
+def Conc.taskRunning (C : Conc) : Prop :=
+  ∃ (r : Nat) (v : State) (j : Nat) (m : Mon) (w : Nat), C.view r = some v ∧ v.mons[j]? = some m ∧ m.phase.worker = some w
+
+/-- at tick `m` a worker takes a task from the queue -/
+def Exec.tookPop (X : Exec) (m : Nat) : Prop :=
+  ∃ r w i, X.ev m = some (.at r (.pop w i)) ∧ (Conc.stepE (X.C m) (.at r (.pop w i))).isSome = true
+
+/-- SCHEDULER side (F1 of C09's header; assumed): from `N` on, whenever an engine step OTHER than a pop
+    is enabled — a worker inside a task, the poster, a pending callback, the queue clean-up: a runnable
+    goroutine — an engine step is eventually taken -/
+def Exec.SchedFairFrom (X : Exec) (N : Nat) : Prop :=
+  ∀ n, N ≤ n → (∃ r e, e.internal = true ∧ e.isPop = false ∧ ((X.C n).step r e).isSome = true) →
+    ∃ m, n ≤ m ∧ X.tookInternal m
+
+/-- POOL side (what C09 provides, see `fairFrom_of_scheduler_and_pool`): from `N` on, whenever a task
+    is queued, at some later tick a worker pops a task, or a worker is inside a task (the pool is
+    busy; then the scheduler side applies to that worker) -/
+def Exec.PoolStartsFrom (X : Exec) (N : Nat) : Prop :=
+  ∀ n, N ≤ n → (X.C n).taskQueued → ∃ m, n ≤ m ∧ (X.tookPop m ∨ (X.C m).taskRunning)
+
+theorem queued_of_pop_enabled {C : Conc} {r w i : Nat} (h : (C.step r (.pop w i)).isSome = true) : C.taskQueued := by
+  simp only [Conc.step] at h
+  split at h
+  · cases h
+  · rename_i v hv
+    split at h
+    · cases hs : step v (.pop w i) with
+      | none => simp [hs] at h
+      | some v' =>
+        simp only [step] at hs
+        split at hs
+        · split at hs
+          · rename_i m hm
+            split at hs
+            · rename_i hph
+              exact ⟨r, v, i, m, hv, hm, hph⟩
+            · cases hs
+          · cases hs
+        · cases hs
+    · cases h
+
+theorem nonpop_enabled_of_running {C : Conc} (h : C.taskRunning) :
+    ∃ r e, e.internal = true ∧ e.isPop = false ∧ (C.step r e).isSome = true := by
+  obtain ⟨r, v, j, m, w, hv, hm, hw⟩ := h
+  obtain ⟨e, hi, hnp, hs⟩ := busy_step hm hw
+  cases hse : step v e with
+  | none => simp [hse] at hs
+  | some v' =>
+    have hal : C.allows e = true := by cases e <;> simp_all [Conc.allows, Event.isPop]
+    exact ⟨r, e, hi, hnp, by simp [Conc.step, hv, hal, hse]⟩
+
+theorem tookInternal_of_tookPop {X : Exec} {m : Nat} (h : X.tookPop m) : X.tookInternal m := by
+  obtain ⟨r, w, i, he, hs⟩ := h
+  exact ⟨.at r (.pop w i), he, rfl, hs⟩
+
+theorem fairFrom_of_parts {X : Exec} {N : Nat} (hs : X.SchedFairFrom N) (hp : X.PoolStartsFrom N) : X.FairFrom N := by
+  intro n hn ⟨r, e, hi, hen⟩
+  cases hpop : e.isPop with
+  | false => exact hs n hn ⟨r, e, hi, hpop, hen⟩
+  | true =>
+    cases e with
+    | pop w i =>
+      obtain ⟨m, hnm, h⟩ := hp n hn (queued_of_pop_enabled hen)
+      rcases h with h | h
+      · exact ⟨m, hnm, tookInternal_of_tookPop h⟩
+      · obtain ⟨m', hmm', ht⟩ := hs m (by omega) (nonpop_enabled_of_running h)
+        exact ⟨m', by omega, ht⟩
+    | _ => simp [Event.isPop] at hpop
+
+/-- `fair_quiescence` with fairness demanded only from `N` on -/
+theorem fair_quiescence_from (X : Exec) {N : Nat} (hf : X.FairFrom N) (ha : X.AddsStopAt N) :
+    ∃ n, N ≤ n ∧ ¬ (X.C n).enabledInternal := by
+  suffices ∀ k n, N ≤ n → (X.C n).work ≤ k → ∃ m, n ≤ m ∧ ¬ (X.C m).enabledInternal by
+    obtain ⟨m, hm, hq⟩ := this _ N (Nat.le_refl _) (Nat.le_refl _)
+    exact ⟨m, hm, hq⟩
+  intro k
+  induction k with
+  | zero =>
+    intro n hn hk
+    by_cases hq : (X.C n).enabledInternal
+    · obtain ⟨m, hm, ht⟩ := hf n hn hq
+      obtain ⟨d, rfl⟩ := Nat.exists_eq_add_of_le hm
+      have h1 := exec_work_mono X ha hn d
+      have h2 := (exec_work_step X ha (n := n + d) (by omega)).2 ht
+      omega
+    · exact ⟨n, Nat.le_refl _, hq⟩
+  | succ k ih =>
+    intro n hn hk
+    by_cases hq : (X.C n).enabledInternal
+    · obtain ⟨m, hm, ht⟩ := hf n hn hq
+      obtain ⟨d, rfl⟩ := Nat.exists_eq_add_of_le hm
+      have h1 := exec_work_mono X ha hn d
+      have h2 := (exec_work_step X ha (n := n + d) (by omega)).2 ht
+      obtain ⟨m', hm', hq'⟩ := ih (n + d + 1) (by omega) (by omega)
+      exact ⟨m', by omega, hq'⟩
+    · exact ⟨n, Nat.le_refl _, hq⟩
+
 /-! ### an execution built from a finite run
 
 `execOfRun` turns a finite run `Conc.run C0 es = some Cf` into the infinite execution that performs
@@ -679,5 +787,35 @@ theorem wExec_final : wExec.C 26 = wC := by
   show execState (Conc.init 2 false) wEvs 26 = wC
   have hlen : wEvs.length ≤ 26 := by decide
   exact execState_final wRun hlen
+
+theorem noQueued_of_roots {C : Conc}
+    (h : C.roots.all (fun s => s.mons.all (fun m => m.phase != .queued)) = true) : ¬ C.taskQueued := by
+  rintro ⟨r, v, i, m, hv, hm, hph⟩
+  rw [view_eq] at hv
+  obtain ⟨s0, hs0, hs0v⟩ := Option.map_eq_some_iff.mp hv
+  have h1 := List.all_eq_true.mp h s0 (List.mem_of_getElem? hs0)
+  subst hs0v
+  have hm' : s0.mons[i]? = some m := hm
+  have h2 := List.all_eq_true.mp h1 m (List.mem_of_getElem? hm')
+  simp [hph] at h2
+
+theorem wNoQueuedB : ∀ k, k < 12 →
+    ((execState (Conc.init 2 false) wEvs (14 + k)).roots.all fun s => s.mons.all fun m => m.phase != .queued) = true := by
+  decide
+
+/-- after tick 13 of the witness run (the second child popped) no task is queued any more -/
+theorem wExec_no_queued_after_13 : ∀ n, 14 ≤ n → ¬ (wExec.C n).taskQueued := by
+  intro n hn
+  by_cases h26 : 26 ≤ n
+  · have hlen : wEvs.length ≤ n := by
+      have : wEvs.length = 26 := by decide
+      omega
+    have : wExec.C n = wC := execState_final wRun hlen
+    rw [this]
+    exact noQueued_of_roots (by decide)
+  · have hk : n - 14 < 12 := by omega
+    have := wNoQueuedB (n - 14) hk
+    rw [show 14 + (n - 14) = n by omega] at this
+    exact noQueued_of_roots this
 
 end Ecal.Cascade
